@@ -30,7 +30,7 @@ ASSUMPTIONS = [
     "symmetry of a proposal with its inverse is tested on i.i.d. draws: displacement d vs -d, rotation vector vs its negative, log of the deformation gradient vs its negative; "
     "sign test |z|>5 or two-sample KS p<1e-6 flags; a flag is re-measured once with 4x the draws and is a violation only if flagged again",
 ]
-REQUIRED = {"masks_assigned_after_construction": 300, "calls:Ball": 1000, "calls:Box": 1000, "calls:Sphere": 1000, "calls:Translation": 1000, "calls:Rotation": 500, "calls:TranslationRotation": 500, "calls:CompositeOperation": 300, "calls:IsotropicDeformation": 500, "calls:AnisotropicDeformation": 500, "calls:ShapeDeformation": 500, "symmetry_tests": 20, "uniformity_tests": 2, "masked_calls": 200}
+REQUIRED = {"calls_on_atoms_edited_in_place": 200, "masks_assigned_after_construction": 300, "calls:Ball": 1000, "calls:Box": 1000, "calls:Sphere": 1000, "calls:Translation": 1000, "calls:Rotation": 500, "calls:TranslationRotation": 500, "calls:CompositeOperation": 300, "calls:IsotropicDeformation": 500, "calls:AnisotropicDeformation": 500, "calls:ShapeDeformation": 500, "symmetry_tests": 20, "uniformity_tests": 2, "masked_calls": 200}
 SHARD_TIMEOUT = {"quick": 900, "thorough": 3000}
 
 ORIG: dict = {}
@@ -463,6 +463,27 @@ def run_rot(spec, rec):
     for _ in range(200):
         ctx = make_ctx(rng, int(rng.integers(1, 3)), "triclinic")
         op.calculate(ctx)
+    # one operation object used again and again on ONE atoms object and ONE group of rows, while the atoms are edited in
+    # place in between (masses re-assigned, species changed, other atoms deleted so that other atoms sit in those rows):
+    # the centre of mass that must be kept is that of the atoms as they are at the time of the call
+    for _ in range(60):
+        ctx = make_ctx(rng, int(rng.integers(2, 6)), "triclinic", n_other=4)
+        keep_rows = np.array(ctx._moving_indices)
+        for k_ in range(6):
+            op.calculate(ctx)
+            rec.count("calls_on_atoms_edited_in_place")
+            a_ = ctx.atoms
+            how = (k_ + _) % 3
+            if how == 0:
+                a_.set_masses(rng.uniform(1, 200, len(a_)))
+            elif how == 1:
+                syms_ = a_.get_chemical_symbols()
+                a_.set_chemical_symbols([["H", "C", "O", "Cu", "Au"][int(i)] for i in rng.integers(0, 5, len(syms_))])
+                a_.set_masses(None)
+            elif len(a_) > len(keep_rows) + 1 and keep_rows.max() < len(a_) - 1:
+                del a_[[int(i) for i in range(len(a_)) if i not in set(keep_rows.tolist())][:1]]
+                keep_rows = np.array([r if r < len(a_) else len(a_) - 1 for r in keep_rows])
+                ctx._moving_indices = np.unique(keep_rows)
     if spec["op"] == "TranslationRotation" and COLLECT.get("tr_frac"):
         judge_uniform(rec, "TranslationRotation", "tr_frac")
 
